@@ -11,6 +11,7 @@ import (
 	"math/rand"
 	"os"
 	"sort"
+	"time"
 
 	"github.com/foxglove/mcap/go/mcap"
 
@@ -180,7 +181,9 @@ func doReadOn(d *fileDesc, rs readSpec, shared *mcap.Reader) wl.Ev {
 	end, why := "", ""
 	usedIndex := false
 	mdsMatch := "none"
-	func() {
+	finished := make(chan struct{})
+	go func() {
+		defer close(finished)
 		defer func() {
 			if p := recover(); p != nil {
 				end, why = "panic", fmt.Sprint(p)
@@ -239,6 +242,13 @@ func doReadOn(d *fileDesc, rs readSpec, shared *mcap.Reader) wl.Ev {
 		mds = len(mdl)
 		mdsMatch = mdMatch(d, mdl)
 	}()
+	select {
+	case <-finished:
+	case <-time.After(120 * time.Second): // a read of a few KiB that does not come back (the goroutine is abandoned)
+		return wl.Ev{"ev": "Read", "mdcb": rs.MdCb, "mode": rs.Mode, "order": rs.Order, "hasT": rs.HasT, "form": rs.Form, "hasS": rs.S != nil, "hasE": rs.E != nil,
+			"topics": e["topics"], "s": e["s"], "e": e["e"], "ids": []any{}, "inexact": 0, "end": "hang", "why": "the read did not return within 120 s",
+			"maxSlots": 0, "maxLive": 0, "capKiB": 0, "mds": 0, "indexed": false, "mdsMatch": "none"}
+	}
 	e["ids"] = ids
 	e["inexact"] = inexact
 	e["end"] = end
